@@ -66,7 +66,7 @@ CHECKS["C04"] = dict(engine="system", level=("model_checking", "End-to-end: gene
 CHECKS["C07"] = dict(engine="system", level=("model_checking", "End-to-end: generated module programs run through the REAL tier1 service (resolution, plan, scheduler, in-process tier2 jobs in a harness-controlled completion order, squasher, walker, linear pipeline, real files) and every observed response stream / final store map is judged by TraceSystem.tla against SeqExec of Exec.tla - one sequential execution of the whole module graph, with the hand-off taken from Plan.tla. Design level: the compositional lemmas are TLC-checked models (MCStore: merge = sequential; MCPlan: coverage of the range; Sched/C05: jobs start with complete inputs). After a complete run, the request is re-run on random, structured and per-module subsets of the files it left (plus *.tmp crash debris); outputs must equal SeqExec and the request must complete. Job level: TraceJob.tla states the contract of one tier2 job and the real job is run for every stage on EVERY subset of the cache files of its segment (exhaustive: 2^8 subsets x 3 stages x 2-4 program variants), the files left being compared with a clean run's.", "6/C07"), note=SYS_NOTE + "; request-level subsets are sampled (5 per scenario), job-level subsets are enumerated", technique=SYS_TECH)
 
 CHECKS["C03"] = dict(engine="system", level=("model_checking", "Fork histories (random fork trees, arrival orders and finality progress, including ping-pong histories that re-apply and re-undo the same blocks) are turned into steps by the REAL bstream/forkable and fed to the real tier1 pipeline on generated module programs; after every step the store map and sizes, and at the end the response stream, are judged by TraceSystem.tla: stores = SeqExec over the canonical chain rebuilt from the steps, the client model (keep data, drop above lastValidBlock on undo) converges on the canonical chain, undo signals designate held blocks, never two blocks at one height without an undo; the client then reconnects with the cursor of a message it received (orphaned or canonical block) and the client model continues over the resumed stream (undo signal for the junction, convergence). Store level: TLC checks ReverseDeltas restores the pre-block content in MCStore and the undo events of the store chains are trace-validated. Design level: Pipeline.tla (gate, undo signalling, client) is explored by MCPipeline under every fork history over 7-8 heights x 3 branches; the message sequence it predicts from the steps of each real run is compared with the observed stream (drift).", "6/C03"),
-    note="bstream/forkable trusted as producer of steps; no fork directly on the initial LIB (harness artefact); open known finding D11 (start above a fork junction)",
+    note="bstream/forkable trusted as producer of steps; no fork directly on the initial LIB (harness artefact); D11 (start above a fork junction): data below the start block repaired by c0dae499, the undo signal's designation remains an open known finding",
     technique="TLA+ reference execution over the canonical chain + client model (TraceSystem.tla) validating real pipeline runs on forkable-generated histories")
 HOOK_COMMITS.append("9a781b5e")
 
